@@ -61,6 +61,10 @@ type Obligation struct {
 	Trivial bool `json:"trivial,omitempty"`
 	Model   string `json:"-"`
 	Replay  *ReplayResult `json:"-"`
+	// thorough tier: answer of a second, different solver on the same query
+	// ("unsat" = confirmed, "sat" = disagreement, anything else = no answer in time)
+	Second       string `json:"second_status,omitempty"`
+	SecondSolver string `json:"second_solver,omitempty"`
 }
 
 func (o *Obligation) OK() bool {
@@ -706,6 +710,22 @@ func (eng *Engine) discharge(fv *FV) {
 			}
 			best, _ := solve(dir, fmt.Sprintf("q%03d", i), text, eng.timeout)
 			o.Status, o.Solver, o.Secs, o.Output = best.Status, best.Solver, best.Secs, best.Output
+			if eng.crossCheck && o.Status == "unsat" {
+				// independent confirmation by a different solver
+				for _, sp := range solvers {
+					if sp.name == best.Solver {
+						continue
+					}
+					r := runOne(context.Background(), sp, dir, fmt.Sprintf("x%03d", i), text, 20)
+					if r.Status == "unsat" || r.Status == "sat" {
+						o.Second, o.SecondSolver = r.Status, r.Solver
+						break
+					}
+					if o.Second == "" {
+						o.Second, o.SecondSolver = r.Status, r.Solver
+					}
+				}
+			}
 			if o.Status != "unsat" && o.Status != "sat" {
 				// model search on the quantifier-free part (candidate input for replay)
 				mt := fv.s.queryQF(o.upto, o.goal)
